@@ -72,8 +72,10 @@ pub struct AgentEnv {
     /// calls observed
     pub mech_recv_calls: u8,
     pub fp_calls: u8,
+    /// calls of the (marker-consuming) signal_protection_violated_on_timeout
+    pub marker_calls: u8,
 }
-pub static mut AENV: AgentEnv = AgentEnv { fp: Ok(true), mech: Ok(()), violated_marker: false, prepare_fails: false, mech_recv_calls: 0, fp_calls: 0 };
+pub static mut AENV: AgentEnv = AgentEnv { fp: Ok(true), mech: Ok(()), violated_marker: false, prepare_fails: false, mech_recv_calls: 0, fp_calls: 0, marker_calls: 0 };
 
 mod message {
     use stun_rs::*;
@@ -122,7 +124,13 @@ mod st_cred_mech {
             }
         }
         pub fn signal_protection_violated_on_timeout(&mut self, _t: &TransactionId) -> bool {
-            unsafe { AENV.violated_marker }
+            // like the real TransportIntegrity: the query consumes the marker of that transaction
+            unsafe {
+                let v = AENV.violated_marker;
+                AENV.violated_marker = false;
+                AENV.marker_calls += 1;
+                v
+            }
         }
     }
 }
@@ -152,7 +160,13 @@ mod lt_cred_mech {
             }
         }
         pub fn signal_protection_violated_on_timeout(&mut self, _t: &TransactionId) -> bool {
-            unsafe { AENV.violated_marker }
+            // like the real TransportIntegrity: the query consumes the marker of that transaction
+            unsafe {
+                let v = AENV.violated_marker;
+                AENV.violated_marker = false;
+                AENV.marker_calls += 1;
+                v
+            }
         }
     }
 }
